@@ -1,5 +1,8 @@
-(* Properties_C20.v — density sketch: exact counts, retained = iteration, bound k * levels, wrong dimensions refused,
-   exact kernel mean before the first compaction, non-negative estimates, termination of the compaction loops.
+(* Properties_C20.v — density sketch: exact counts (merge adds n, always), retained = iteration, bound k * levels,
+   wrong dimensions refused (update, merge, estimate), exact kernel mean before the first compaction, estimates defined
+   whenever n > 0, non-negative, and equal to the weighted kernel sum over the iteration; termination of the compaction loops.
+   The model is the code with the repairs fixes/20_is_empty_n.patch and fixes/20_estimate_dim_check.patch
+   (old behaviour: Regression_density.v).
    Statements only; proofs live in DensityProofs.v.  Everything is for ANY kernel K : point -> point -> Z, any merge
    tree of updates (type [hist]) and ANY sequence of internal choices (every [env] in the history is arbitrary). *)
 From Coq Require Import ZArith NArith List Bool Lia QArith.
@@ -37,7 +40,7 @@ Section AnyKernel.
   Proof. exact (ds_update_refused K). Qed.
 
   Theorem C20_merge_wrong_dimension_refused : forall s o e,
-    ds_merge K s o e = None <-> d_ret o <> 0 /\ d_dim o <> d_dim s.
+    ds_merge K s o e = None <-> d_n o <> 0 /\ d_dim o <> d_dim s.
   Proof. exact (ds_merge_refused K). Qed.
 
   (* a refused operation changes neither the sketch nor its input stream (by definition of [eval]/[inputs]);
@@ -46,21 +49,18 @@ Section AnyKernel.
     Z.of_nat (length p) = d_dim s /\ d_n s' = d_n s + 1 /\ inv s'.
   Proof. intros s p e s' e' Hs H. apply (ds_update_spec K) in H; tauto. Qed.
 
-  (* merging a sketch that retains points adds its n (see C20_merge_n_lost_witness for num_retained = 0) *)
-  Theorem C20_merge_adds_n : forall s o e s' e', inv s -> inv o -> d_ret o <> 0 ->
+  (* merging adds n: every accepted merge, whatever the source retains (Regression_density.merge_adds_n_old_refuted
+     documents the behaviour before the repair is_empty() <=> n_ == 0) *)
+  Theorem C20_merge_adds_n : forall s o e s' e', inv s -> inv o ->
     ds_merge K s o e = Some (s', e') -> d_n s' = d_n s + d_n o /\ inv s'.
-  Proof. intros s o e s' e' Hs Ho Hr H. apply (ds_merge_spec K) in H; tauto. Qed.
+  Proof. intros s o e s' e' Hs Ho H. apply (ds_merge_spec K) in H; tauto. Qed.
 
-  (* -- n is exact for every merge tree whose merge sources are not "n > 0, num_retained = 0" -- *)
-  Theorem C20_n_exact : forall h, valid h -> lossless K h ->
+  (* -- n is exact for EVERY merge tree of updates and every choice sequence -- *)
+  Theorem C20_n_exact : forall h, valid h ->
     d_n (eval K h) = Z.of_nat (length (inputs K h)).
   Proof. exact (n_exact K). Qed.
 
-  (* ... which is every merge tree when the kernel is strictly positive *)
-  Theorem C20_n_exact_positive_kernel : (forall a b, 0 < K a b) ->
-    forall h, valid h -> d_n (eval K h) = Z.of_nat (length (inputs K h)).
-  Proof. exact (n_exact_pos K). Qed.
-
+  (* a strictly positive kernel never lets a compaction drop every point *)
   Theorem C20_positive_kernel_keeps_points : (forall a b, 0 < K a b) ->
     forall h, valid h -> inputs K h <> [] -> 0 < d_ret (eval K h).
   Proof. exact (pos_retained K). Qed.
@@ -81,6 +81,7 @@ Section AnyKernel.
   (* -- exact before the first compaction: while every sketch of the merge tree has a single level, the estimate at
         any query point is (sum of K(x_i, q) over all inputs, in input order) / (number of inputs) -- *)
   Theorem C20_exact_before_compaction : forall h q, valid h -> exact_mode K h -> inputs K h <> [] ->
+    Z.of_nat (length q) = d_dim (eval K h) ->
     ds_estimate K (eval K h) q = Some (ksum K q (inputs K h), Z.of_nat (length (inputs K h))) /\
     d_levels (eval K h) = [inputs K h].
   Proof. exact (exact_before_compaction K). Qed.
@@ -98,6 +99,24 @@ Section AnyKernel.
     intros HK h q num den Hv H. destruct (estimate_nonneg K HK h q num den Hv H) as [H0 H1].
     repeat split; auto. unfold Qle; simpl. lia.
   Qed.
+
+  (* -- the estimate is defined whenever n > 0 and the query point has the configured dimension (also when the
+        compactions dropped every retained point), its denominator is the number of inputs ... -- *)
+  Theorem C20_estimate_defined : forall h q, valid h -> inputs K h <> [] -> Z.of_nat (length q) = d_dim (eval K h) ->
+    ds_estimate K (eval K h) q = Some (est_num K (eval K h) q, Z.of_nat (length (inputs K h))).
+  Proof. exact (estimate_defined K). Qed.
+
+  (* ... and it is refused exactly for an empty sketch or a query point of the wrong dimension *)
+  Theorem C20_estimate_refused_iff : forall s q,
+    ds_estimate K s q = None <-> d_n s = 0 \/ Z.of_nat (length q) <> d_dim s.
+  Proof. exact (estimate_refused K). Qed.
+
+  (* -- after any compactions and merges: the numerator of the estimate is the weighted kernel sum over the retained
+        points exactly as the iterator reports them (point, weight 2^level); the estimate is that sum divided by n.
+        (The weights need not add up to n: see C20_weights_need_not_sum_to_n.) -- *)
+  Theorem C20_estimate_is_weighted_kernel_sum : forall s q,
+    est_num K s q = wksum K q (ds_iterate s).
+  Proof. exact (estimate_weighted_sum K). Qed.
 End AnyKernel.
 
 (* ---- non-vacuity and witnesses (concrete kernels of the harness) ---- *)
@@ -117,15 +136,23 @@ Example C20_exact_nonvacuous :
   ds_estimate kern0 (eval kern0 (HMerge a b e0)) [1] = Some (2 ^ 19 + 2 ^ 19 + 2 ^ 20, 3).
 Proof. vm_compute. reflexivity. Qed.
 
-(* WITNESS of the defect reported as merge_ignores_source_with_zero_retained: with kernel values exactly 0 and first
-   sign bit 0 a compaction drops every point; the sketch then has n = 2, num_retained = 0, and merging it adds nothing.
-   Hence C20_n_exact needs [lossless] (or a strictly positive kernel). *)
-Example C20_merge_n_lost_witness :
+(* the history on which the code before the repair lost n (Regression_density.v): a compaction with kernel values
+   exactly 0 and first sign bit 0 drops every point; the source then has n = 2, num_retained = 0; merging it adds its n,
+   and its estimate is defined (0 / 2) *)
+Example C20_zero_retained_nonvacuous :
   let src := HMerge (HUpd (HNew 2 1) [0] e0) (HUpd (HNew 2 1) [100] e0) (mk_env [0; 0]) in
   let h := HMerge (HUpd (HNew 2 1) [5] e0) src e0 in
   valid h /\ d_n (eval kern0 src) = 2 /\ d_ret (eval kern0 src) = 0 /\
-  length (inputs kern0 h) = 3%nat /\ d_n (eval kern0 h) = 1 /\ ds_estimate kern0 (eval kern0 src) [0] = None.
+  length (inputs kern0 h) = 3%nat /\ d_n (eval kern0 h) = 3 /\ ds_estimate kern0 (eval kern0 src) [0] = Some (0, 2) /\
+  ds_estimate kern0 (eval kern0 src) [0; 0] = None.
 Proof. vm_compute. repeat split; intro; discriminate. Qed.
+
+(* the iterator weights 2^level do not in general add up to n (a compaction need not keep exactly half of a level),
+   so the estimate is a weighted kernel SUM over n, not a normalised weighted mean *)
+Example C20_weights_need_not_sum_to_n :
+  let h := HMerge (HUpd (HNew 2 1) [0] e0) (HUpd (HNew 2 1) [100] e0) (mk_env [0; 0]) in
+  wtotal (ds_iterate (eval kern0 h)) = 0 /\ d_n (eval kern0 h) = 2.
+Proof. vm_compute. split; reflexivity. Qed.
 
 Print Assumptions C20_retained_accounting.
 Print Assumptions C20_retained_is_iteration_length.
@@ -136,10 +163,12 @@ Print Assumptions C20_merge_wrong_dimension_refused.
 Print Assumptions C20_update_counts_once.
 Print Assumptions C20_merge_adds_n.
 Print Assumptions C20_n_exact.
-Print Assumptions C20_n_exact_positive_kernel.
 Print Assumptions C20_positive_kernel_keeps_points.
 Print Assumptions C20_compactions_terminate.
 Print Assumptions C20_reachable_wellformed.
 Print Assumptions C20_exact_before_compaction.
 Print Assumptions C20_levels_monotone.
 Print Assumptions C20_estimate_nonneg.
+Print Assumptions C20_estimate_defined.
+Print Assumptions C20_estimate_refused_iff.
+Print Assumptions C20_estimate_is_weighted_kernel_sum.
